@@ -42,12 +42,23 @@ output of a minisat-style solver, CRLF line ends, separators inside the 'v' line
 standard output delivered in several writes with pauses of a few milliseconds, text
 printed when asked for ``--help``.  Such a script plays files prepared by the harness
 (``cat``), so any byte can be sent.
+
+A *consumer* (``consumer_program``, ``Sandbox.install_consumer``) is a small Python program
+instead: it describes how the solver TAKES its input - all of it, in small pieces with
+pauses, only up to the problem line / the first clause / a byte count, nothing at all -
+whether it closes the input and goes on working before it answers, and at which moment it
+puts its (possibly large) standard output on the pipe.  It never waits for anything but
+the end of the input, a fixed number of bytes or room in its output pipe; every such wait
+is guarded (``WATCHDOG_S``): when it expires the program leaves a ``<name>.stuck`` note in
+the capture directory and exits, so that a bridge that blocks shows up as a finding of
+the check and not as a hanging run.
 """
 import os
 import random
 import re
 import shutil
 import stat
+import sys
 import tempfile
 
 # behaviour of each solver name the harness knows (see module docstring)
@@ -169,6 +180,66 @@ def strict_dimacs(text):
     return n, clauses
 
 
+def fast_dimacs(text, partial=False):
+    """Same contract as strict_dimacs, written for texts of megabytes (whole-text operations instead of a
+    regular expression per token).  partial=True reads the *beginning* of a DIMACS text as a program that
+    stopped reading early holds it: the last line may be cut anywhere (it is dropped unless the text ends with
+    a line end), the problem line may not have arrived yet (n is None then), fewer clauses than announced may be
+    there and the last one may lack its 0.  Returns (n, clauses), with partial=True (n, m, clauses)."""
+    if '\r' in text:
+        raise DimacsError("carriage return in the text")
+    if partial and not text.endswith('\n'):
+        text = text[:text.rfind('\n') + 1]
+    n = m = None
+    body = []
+    for line in text.split('\n'):
+        s = line.strip(' \t')
+        if not s or s[0] == 'c':
+            continue
+        if s[0] == 'p':
+            tok = s.split()
+            if n is not None:
+                raise DimacsError("second problem line {!r}".format(line))
+            if body:
+                raise DimacsError("clause data before the problem line")
+            if len(tok) != 4 or tok[0] != 'p' or tok[1] != 'cnf' or not _INT.match(tok[2]) or not _INT.match(tok[3]):
+                raise DimacsError("malformed problem line {!r}".format(line))
+            n, m = int(tok[2]), int(tok[3])
+            if n < 0 or m < 0:
+                raise DimacsError("negative sizes in {!r}".format(line))
+            continue
+        if n is None:
+            raise DimacsError("clause data before the problem line: {!r}".format(line[:80]))
+        body.append(s)
+    toks = ' '.join(body).split()
+    try:
+        vals = list(map(int, toks))
+    except ValueError as e:
+        raise DimacsError("a token is not a literal: {}".format(e))
+    if ' '.join(map(str, vals)) != ' '.join(toks):
+        bad = [t for t, v in zip(toks, vals) if str(v) != t][:3]
+        raise DimacsError("tokens {} are not plain decimal literals".format(bad))
+    clauses = []
+    cur = []
+    for v in vals:
+        if v:
+            cur.append(v)
+        else:
+            clauses.append(cur)
+            cur = []
+    if vals and (max(vals) > n or -min(vals) > n):
+        raise DimacsError("a literal exceeds the declared {} variables".format(n))
+    if partial:
+        return n, m, clauses
+    if n is None:
+        raise DimacsError("no problem line")
+    if cur:
+        raise DimacsError("last clause not terminated by 0")
+    if len(clauses) != m:
+        raise DimacsError("{} clauses announced, {} present".format(m, len(clauses)))
+    return n, clauses
+
+
 # ---------------------------------------------------------------------------
 # rendering of the canned answer
 
@@ -216,7 +287,8 @@ def _chunks(lits, cuts):
 VSEPS = [' ', '  ', '\t', ' \t ']          # between two literals of a 'v' line
 VLEADS = [' ', '\t', '   ']                # between the 'v' and the first literal
 VTRAILS = ['', ' ', '\t', '  ']            # after the last token of a 'v' line
-VSPLITS = ('cuts', 'each', 'one')          # 'v' lines cut at shape['cuts'] / one literal per line / a single line
+VSPLITS = ('cuts', 'each', 'one', 'rows')  # 'v' lines cut at shape['cuts'] / one literal per line / a single line /
+                                           # chan['per_line'] literals per line (what the real programs do)
 MORE_FILLERS = [
     ['c ' + 'y' * 30000],                                  # a very long comment line
     ['c\tindented\tcomment', 'c'],
@@ -256,6 +328,9 @@ def render_stdout(verdict, model, shape):
         chunks = [[l] for l in lits]
     elif split == 'one':
         chunks = [lits] if lits else []
+    elif split == 'rows':
+        k = max(1, int(chan.get('per_line', 10)))
+        chunks = [lits[i:i + k] for i in range(0, len(lits), k)]
     else:
         chunks = _chunks(lits, shape.get('cuts') or [])
     sep = _pick(VSEPS, chan.get('vsep', 0))
@@ -628,6 +703,207 @@ def plan_script_text(behaviour, capdir, datadir, verdict, model, shape, n):
 
 
 # ---------------------------------------------------------------------------
+# consumers: how the program takes its input (see the module docstring)
+
+READ_MODES = ('all', 'pline', 'clause1', 'bytes', 'none')
+OUT_AT = ('end', 'start', 'mid')
+WATCHDOG_S = 120          # never reached on a bridge that works; the safety net against a hanging run
+CONSUME_DEFAULT = {
+    'read': 'all',        # all: to the end of the input; pline: up to the end of the problem line; clause1: up to the end of
+                          # the first clause; bytes: 'nbytes' bytes; none: not a byte
+    'nbytes': 4096,
+    'chunk': 65536,       # size of one read
+    'nap_every': 0,       # a pause of nap_ms milliseconds after every nap_every-th read (0: none)
+    'nap_ms': 1,
+    'close_early': False,  # the input is closed after the reading; the program goes on for linger_ms before it answers
+    'linger_ms': 0,
+    'out_at': 'end',      # standard output is written after the reading / before it / after the first 'nbytes' bytes
+}
+
+_CONSUMER = r"""#!{python} -SE
+# scripted SAT solver (vlib/fakesolver.py: consumer_program)
+import os, sys, select, time
+ME = os.path.basename(sys.argv[0])
+CAP = {cap!r}
+D = {data!r}
+BEH = {behaviour!r}
+P = {plan!r}
+WATCHDOG = {watchdog!r}
+EXIT = {exit!r}
+
+
+def note(kind, text):
+    with open(os.path.join(CAP, ME + '.' + kind), 'a') as f:
+        f.write(text + '\n')
+
+
+def stuck(text):
+    note('stuck', text)
+    os._exit(3)
+
+
+def write_all(fd, data, what):
+    os.set_blocking(fd, False)
+    view = memoryview(data)
+    while len(view):
+        _, w, _ = select.select([], [fd], [], WATCHDOG)
+        if not w:
+            stuck('nobody takes the bytes of ' + what + ': %d of %d written' % (len(data) - len(view), len(data)))
+        try:
+            k = os.write(fd, view[:65536])
+        except BlockingIOError:
+            continue
+        except BrokenPipeError:
+            note('notes', what + ' closed by the reader after %d of %d bytes' % (len(data) - len(view), len(data)))
+            return
+        view = view[k:]
+
+
+args = sys.argv[1:]
+for a in args:
+    if a in ('--help', '-h', '-help', '--version', '-version', '-V'):
+        sys.exit(0)
+inp = out = None
+with open(os.path.join(CAP, ME + '.args'), 'w') as f:
+    for a in args:
+        f.write(a + '\n')
+        if a.startswith('-'):
+            continue
+        if inp is None:
+            inp = a
+        elif out is None:
+            out = a
+with open(os.path.join(CAP, 'calls'), 'a') as f:
+    f.write(ME + '\n')
+if BEH == 'filereq' and inp is None:
+    print('usage: ' + ME + ' [options] FILE')
+    sys.exit(1)
+with open(os.path.join(D, 'stdout'), 'rb') as f:
+    STDOUT = f.read()
+RESULT = None
+if os.path.exists(os.path.join(D, 'result')):
+    with open(os.path.join(D, 'result'), 'rb') as f:
+        RESULT = f.read()
+wrote = [False]
+
+
+def answer_stdout():
+    if not wrote[0]:
+        wrote[0] = True
+        write_all(1, STDOUT, 'standard output')
+
+
+if P['out_at'] == 'start':
+    answer_stdout()
+try:
+    fd = os.open(inp, os.O_RDONLY) if inp is not None else 0
+except OSError:
+    sys.exit(3)
+got = bytearray()
+state = dict(eof=False, reads=0)
+
+
+def more(limit=None):
+    size = P['chunk'] if limit is None else max(1, min(P['chunk'], limit))
+    r, _, _ = select.select([fd], [], [], WATCHDOG)
+    if not r:
+        stuck('waiting for input: neither a byte nor the end of the input arrived (%d bytes so far)' % len(got))
+    b = os.read(fd, size)
+    state['reads'] += 1
+    if P['nap_every'] and state['reads'] % P['nap_every'] == 0:
+        time.sleep(P['nap_ms'] / 1000.0)
+    if not b:
+        state['eof'] = True
+    got.extend(b)
+    if P['out_at'] == 'mid' and len(got) >= P['nbytes']:
+        answer_stdout()
+    return b
+
+
+def line_end(kind):
+    # position after the end of the problem line (kind 'p') or of the first clause line after it
+    pos = 0
+    seen_p = False
+    while True:
+        nl = got.find(b'\n', pos)
+        if nl < 0:
+            return None
+        line = bytes(got[pos:nl]).strip()
+        pos = nl + 1
+        if not line or line[:1] == b'c':
+            continue
+        if line[:1] == b'p':
+            seen_p = True
+            if kind == 'p':
+                return pos
+            continue
+        if seen_p and line.split()[-1:] == [b'0']:
+            return pos
+
+
+mode = P['read']
+if mode == 'all':
+    while more():
+        pass
+elif mode == 'bytes':
+    while len(got) < P['nbytes'] and more(P['nbytes'] - len(got)):
+        pass
+elif mode in ('pline', 'clause1'):
+    while line_end('p' if mode == 'pline' else 'c') is None and more():
+        pass
+with open(os.path.join(CAP, ME + '.in'), 'wb') as f:
+    f.write(got)
+note('eof', '1' if state['eof'] else '0')
+if P['close_early']:
+    os.close(fd)
+    time.sleep(P['linger_ms'] / 1000.0)
+if RESULT is not None and out is not None and P.get('res_first'):
+    with open(out, 'wb') as f:
+        f.write(RESULT)
+answer_stdout()
+if RESULT is not None and out is not None and not P.get('res_first'):
+    with open(out, 'wb') as f:
+        f.write(RESULT)
+note('done', 'answered')
+os._exit(EXIT)
+"""
+
+
+def consume_plan(consume):
+    """CONSUME_DEFAULT updated with the entries of the case; values are validated (everything is bounded)."""
+    plan = dict(CONSUME_DEFAULT)
+    plan.update(consume or {})
+    if plan['read'] not in READ_MODES or plan['out_at'] not in OUT_AT:
+        raise ValueError("bad consumer plan {}".format(plan))
+    if not (1 <= int(plan['chunk']) <= 1 << 20 and 0 <= int(plan['nbytes']) <= 1 << 22 and 0 <= int(plan['nap_every'])
+            and 0 <= int(plan['nap_ms']) <= 5 and 0 <= int(plan['linger_ms']) <= 50):
+        raise ValueError("consumer plan out of range {}".format(plan))
+    return plan
+
+
+def consumer_program(behaviour, capdir, datadir, plan, exit_status):
+    return _CONSUMER.format(python=os.path.realpath(sys.executable), cap=capdir, data=datadir, behaviour=behaviour,
+                            plan=plan, watchdog=float(WATCHDOG_S), exit=int(exit_status))
+
+
+def consumer_output(behaviour, verdict, model, shape, n, chatter_kib=0):
+    """(bytes for standard output, bytes for the result file or None) of a truthful answer; chatter_kib KiB of
+    lines that are not the answer come first on standard output (comment lines; statistics for a minisat-style program)."""
+    if behaviour == 'minisat':
+        lines, res = render_minisat(verdict, model, shape, n)
+        chat = ['|  restart {:8d} | conflicts {:10d} | learnt {:10d} | progress {:6.2f} % |'.format(i, 7 * i, 3 * i, i % 100)
+                for i in range(int(chatter_kib) * 1024 // 80 + (1 if chatter_kib else 0))]
+        lines = lines[:1] + chat + lines[1:]
+    else:
+        lines, _ = render_stdout(verdict, model, shape)
+        res = render_minisat(verdict, model, shape, n)[1] if behaviour == 'poly' else None
+        chat = ['c {:8d} {}'.format(i, 'search statistics ' * 4) for i in range(int(chatter_kib) * 1024 // 84 + (1 if chatter_kib else 0))]
+        lines = chat + lines
+    out = ('\n'.join(lines) + '\n').encode('ascii') if lines else b''
+    return out, (None if res is None else res.encode('ascii'))
+
+
+# ---------------------------------------------------------------------------
 # the per-case sandbox
 
 class _Fd2:
@@ -769,6 +1045,23 @@ class Sandbox:
         else:
             raise ValueError(state)
 
+    def install_consumer(self, name, behaviour, plan, stdout_bytes, result_bytes, exit_status, where=0):
+        """Put a consumer program (see consumer_program) called `name` in a PATH directory."""
+        dest = os.path.join(self.bins[where], name)
+        if os.path.lexists(dest):
+            os.unlink(dest)
+        datadir = os.path.join(self.root, 'consumer-{}-{}.d'.format(where, name))
+        if not os.path.isdir(datadir):
+            os.mkdir(datadir)
+        with open(os.path.join(datadir, 'stdout'), 'wb') as f:
+            f.write(stdout_bytes)
+        if result_bytes is not None:
+            with open(os.path.join(datadir, 'result'), 'wb') as f:
+                f.write(result_bytes)
+        with open(dest, 'w') as f:
+            f.write(consumer_program(behaviour, self.cap, datadir, plan, exit_status))
+        os.chmod(dest, 0o755)
+
     def remove(self, name, where=0):
         """Remove the program called `name` from the where-th directory of PATH;
         returns False when there is none."""
@@ -810,6 +1103,11 @@ class Sandbox:
             if os.path.exists(pi):
                 with open(pi, 'rb') as f:
                     rec['input'] = f.read()
+            for extra in ('eof', 'stuck', 'notes', 'done'):          # left by a consumer program
+                pe = os.path.join(self.cap, nm + '.' + extra)
+                if os.path.exists(pe):
+                    with open(pe) as f:
+                        rec[extra] = f.read().split('\n')[:-1]
             calls.append(rec)
         for fn in os.listdir(self.cap):
             os.unlink(os.path.join(self.cap, fn))
